@@ -1,3 +1,4 @@
+import RossModel.Lemmas.SourceTie
 import RossModel.Lemmas.Can
 import RossModel.Lemmas.Transparent
 /-!
@@ -56,5 +57,9 @@ theorem C08_fromCan_rejects (c : CanFrame) :
     unfold fromCan
     simp only [h1, h2, h4, Bool.not_true, Bool.false_eq_true, if_false, hm, if_true]
     simp
+
+/-! ### tie to the source text (constants regenerated from /repo by `bin/extract` on every run) -/
+/-- `to_bxcan_frame` / `from_bxcan_frame` in `src/frame.rs` use the shifts and masks the model uses (both id arms) -/
+theorem C08_src_can_codec : (SrcTie.toCanOk && SrcTie.fromCanOk) = true := by decide
 
 end Ross.Props
